@@ -173,12 +173,24 @@ READ_KINDS = ["exact", "truncated", "jitter", "terminal_left_misaligned", "termi
               "skipped_exon", "fake_terminal_exon", "intron_retention", "intron_shift", "novel_exon", "partial_intron_retention", "novel_intron_in_exon"]
 
 
-def assign(gene_info, params, read_exons, polya=(-1, -1, -1, -1)):
+def assign(gene_info, params, read_exons, polya=(-1, -1, -1, -1), trimmed_blocks=None):
+    """trimmed_blocks = (blocks before, blocks after): terminal blocks of the raw alignment (a polyT head / polyA tail aligned behind an N
+    gap) that AlignmentInfo.add_polya_info has trimmed away - the pysam record still carries them, the AlignmentInfo does not"""
     ai = native.repo_import("src/alignment_info.py")
     lrp = native.repo_import("src/long_read_profiles.py")
     lra = native.repo_import("src/long_read_assigner.py")
     pf = native.repo_import("src/polya_finder.py")
-    info = ai.AlignmentInfo(make_alignment(read_exons))
+    if trimmed_blocks:
+        before, after = trimmed_blocks
+        info = ai.AlignmentInfo(make_alignment(list(before) + list(read_exons) + list(after)))
+        # what add_polya_info does once PolyAFixer has counted the tail exons
+        lo, hi = len(before), len(before) + len(read_exons)
+        info.read_exons, info.read_blocks, info.cigar_blocks = info.read_exons[lo:hi], info.read_blocks[lo:hi], info.cigar_blocks[lo:hi]
+        info.exons_changed = True
+        info.read_start, info.read_end = info.read_exons[0][0], info.read_exons[-1][1]
+        assert info.read_exons == list(read_exons)
+    else:
+        info = ai.AlignmentInfo(make_alignment(read_exons))
     info.polya_info = pf.PolyAInfo(*polya)
     info.cage_hits = []
     info.construct_profiles(lrp.CombinedProfileConstructor(gene_info, params))
